@@ -271,8 +271,9 @@ pub(crate) fn parse_included_files<P: AsRef<Path>>(
         .statements()
         .filter_map(|parse_stmt| match parse_stmt {
             synast::Stmt::Include(include) => {
-                let file: synast::FilePath = include.file().unwrap();
-                let file_path = file.to_string().unwrap();
+                // An include without a usable path (missing after a syntax error, or not a
+                // well-formed string) includes nothing. The semantic analysis skips it as well.
+                let file_path = include.file().and_then(|file| file.to_string())?;
                 // stdgates.inc will be handled "as if" it really existed.
                 if file_path == "stdgates.inc" {
                     None
